@@ -803,11 +803,10 @@ fn gen_case(batch: &str, index: u64, seed: u64) -> Case {
             if kernel.kind != "rbf" && c > 1.0 && tol < 1e-2 {
                 c = 1.0;
             }
-            if c > 10.0 && tol < 1e-3 {
-                c = 10.0;
-            }
             let tol = if kernel.kind == "poly" && tol < 1e-3 { 1e-3 } else { tol };
-            Case { model: "svr".into(), x, y, kernel, c, tol, epoch: 0, eps: *pr.pick(&[0.0, 0.05, 0.1, 0.5]), f32m, queries, budget: 30_000_000, tape: TapeSpec::prng(tape_seed), kind: "svr".into() }
+            // the slowest region observed (RBF, C = 100, tol = 1e-4: up to 5.9e5 iterations) gets a larger budget
+            let budget = if c > 10.0 && tol < 1e-3 { 150_000_000 } else { 30_000_000 };
+            Case { model: "svr".into(), x, y, kernel, c, tol, epoch: 0, eps: *pr.pick(&[0.0, 0.05, 0.1, 0.5]), f32m, queries, budget, tape: TapeSpec::prng(tape_seed), kind: "svr".into() }
         }
         _ => {
             // SVC batches
@@ -1034,10 +1033,10 @@ impl Property for C10 {
     fn assumptions(&self) -> Vec<String> {
         vec![
             "the only nondeterminism SVC::fit consumes is rand::thread_rng() inside Optimizer::permutate, served by the simulator through the patched rand 0.8.8 copy; the kernel cache is a keyed HashMap lookup and its retain() predicate is order independent".into(),
-            "the Counting<K> wrapper delegates to the real kernels; kernel evaluations and the cfg(smartcore_verif) tick in the SMO loops are the logical clock; the budget (2e7 kernel evaluations or SMO ticks for SVC, 3e7 SMO iterations for SVR) is >= 100x the largest count observed on the unchanged tree (reported under measured_maxima)".into(),
+            "the Counting<K> wrapper delegates to the real kernels; kernel evaluations and the cfg(smartcore_verif) tick in the SMO loops are the logical clock; the budget (2e7 kernel evaluations or SMO ticks for SVC, 3e7 SMO iterations for SVR (1.5e8 for RBF with C = 100 and tol = 1e-4)) is >= 100x the largest count observed on the unchanged tree (reported under measured_maxima)".into(),
             "closed-form kernels and the expansion b + sum w_i K(sv_i, x) are computed independently in the harness from the model's serde image".into(),
             "tolerances: box 1e-12*C, |sum w| <= 1e-9*C*n, expansion 1e-9 relative (f32: 1e-5, 1e-3, 2e-3); SVR optimality slack = tol + 1e-9*scale (the stopping rule guarantees tol/2)".into(),
-            "SVR workload restricted to the region where SMO converges quickly (n <= 40; RBF with C <= 100 (C = 100 only for tol >= 1e-3); linear and polynomial degree <= 2 with C <= 1, or C = 10 at tol = 1e-2; polynomial only with tol >= 1e-3); slow convergence elsewhere is not judged".into(),
+            "SVR workload restricted to the region where SMO converges quickly (n <= 40; RBF with C <= 100; linear and polynomial degree <= 2 with C <= 1, or C = 10 at tol = 1e-2; polynomial only with tol >= 1e-3); slow convergence elsewhere is not judged".into(),
             "sampling, not enumeration, beyond n = 5: a clean batch is evidence, not proof".into(),
         ]
     }
